@@ -37,6 +37,8 @@ func substr(root map[string]any, at any, args ...any) any {
 		if start < 0 {
 			start = 0
 		}
+	} else if int64(len(s)) < start {
+		start = int64(len(s))
 	}
 	var count int64
 	if 2 < len(args) {
@@ -47,7 +49,7 @@ func substr(root map[string]any, at any, args ...any) any {
 		if count < 0 {
 			return ""
 		}
-		if int64(len(s)) < start+count {
+		if int64(len(s))-start < count {
 			s = s[start:]
 		} else {
 			s = s[start : start+count]
